@@ -18,6 +18,7 @@ import (
 //   - an Unlock/RUnlock where the function may not hold the lock (fatal runtime error),
 //   - a return with the lock possibly held and no deferred release (the next
 //     operation on the structure blocks for good).
+//
 // A liveness clause ("the sync finishes", "the waiter is woken", "Head returns")
 // cannot hold when one of these fires, whatever the schedule.
 const (
